@@ -169,8 +169,11 @@ macro_rules! impl_lighten_hwb {
                 Self {
                     hue: self.hue,
                     whiteness: (self.whiteness + Self::max_whiteness() * &amount)
-                        .max(Self::min_whiteness()),
-                    blackness: (self.blackness - Self::max_blackness() * amount).max(Self::min_blackness()),
+                        .max(Self::min_whiteness())
+                        .min(Self::max_whiteness()),
+                    blackness: (self.blackness - Self::max_blackness() * amount)
+                        .max(Self::min_blackness())
+                        .min(Self::max_blackness()),
                     $($phantom: PhantomData,)?
                 }
             }
@@ -212,10 +215,18 @@ macro_rules! impl_lighten_hwb {
             #[inline]
             fn lighten_fixed_assign(&mut self, amount: T) {
                 self.whiteness += Self::max_whiteness() * &amount;
-                crate::clamp_min_assign(&mut self.whiteness, Self::min_whiteness());
+                crate::clamp_assign(
+                    &mut self.whiteness,
+                    Self::min_whiteness(),
+                    Self::max_whiteness(),
+                );
 
                 self.blackness -= Self::max_blackness() * amount;
-                crate::clamp_min_assign(&mut self.blackness, Self::min_blackness());
+                crate::clamp_assign(
+                    &mut self.blackness,
+                    Self::min_blackness(),
+                    Self::max_blackness(),
+                );
             }
         }
     };
